@@ -255,6 +255,8 @@ def _run(ctx):
         raise AnalysisError('C02.R3: spec method stores not found (%d)'
                             % n_in)
     r3.ok('outside mistral/lang :: spec attribute stores', 'none')
+    from mstatic.rules import c05 as _c05
+    _c05.shared_publish_specs(ctx, r3)
 
     # ---- R4 execution spec comes from the stored dict --------------------------------
     r4 = ctx.rule('R4', 'an evicted execution spec is rebuilt from the '
@@ -321,6 +323,7 @@ def _run(ctx):
              % (unguarded_new, guarded), ctx.loc(mc))
     from mstatic.rules import c05
     c05.version_paths(ctx, r5)
+    c05.versioned_merges_only(ctx, r5)
     mv = prog.func(CV + '._merge_versions')
     r5.check(any(isinstance(n, ast.Call) and U.call_name(n) == 'max' and
                  {norm(a) for a in n.args} == {'ver_left[key]',
